@@ -7,6 +7,7 @@ correspondence check validates that on every generated patch and config.
 Property theorems only; proofs of the lemmas are in `Lemmas/Sort.lean`.
 -/
 import AnnetModel.Lemmas.Sort
+import AnnetModel.Lemmas.Order
 
 /-! OBLIGATIONS
 Annet.Patch.C08_sort_perm
@@ -19,6 +20,9 @@ Annet.Patch.C08_patch_sort_idempotent
 Annet.Patch.C08_order_config_perm
 Annet.Patch.C08_order_config_idempotent
 Annet.Patch.C08_keys_strict_weak
+Annet.Patch.C08_rank_is_rule_index
+Annet.Patch.C08_unmentioned_rank_zero
+Annet.Patch.C08_earlier_rule_first_negated_mirrored
 -/
 
 namespace Annet.Patch
@@ -35,6 +39,34 @@ theorem C08_patch_paths_perm (t : PTree) : (ptPaths (sortTree t)).Perm (ptPaths 
 /-- The sort keys of Python's tuple comparison form a strict weak order, for patches and for configs. -/
 theorem C08_keys_strict_weak : StrictWeak SortKey.lt ∧ StrictWeak ocLt :=
   ⟨Lemmas.sortKey_strictWeak, Lemmas.ocLt_strictWeak⟩
+
+/-- WHICH KEY A COMMAND GETS (`Orderer.get_order`), for ordering rulebooks without `%order_reverse` / `%scope` / `%global`
+whose sibling rules have disjoint languages (the property's quantifier): a command matched — as written or in negated
+form — by exactly one rule has that rule's index as its order, keeps the direct flag it came with, and its block is
+ordered by that rule's child rules. -/
+theorem C08_rank_is_rule_index (v : Rules.Vendor) (rb : List Rules.ORule) (row : String) (cmdDirect : Bool) (scope : Option String)
+    (hp : ∀ r ∈ rb, PlainO v r) (hex : v.exit = "" ∨ v.exit ≠ row)
+    (i : Nat) (ri : Rules.ORule) (hi : rb[i]? = some ri) (hm : oMatches v ri row = true)
+    (hu : ∀ j rj, rb[j]? = some rj → j ≠ i → oMatches v rj row = false) :
+    getOrder v rb row cmdDirect scope = some { order := .fin i, direct := cmdDirect, children := dedupLast ri.children } :=
+  getOrder_unique v rb row cmdDirect scope hp hex i ri hi hm hu
+
+/-- A command no rule mentions (and that is not the block-exit word) has order 0: it keeps its place among its peers
+(`C08_stable_unmentioned`). -/
+theorem C08_unmentioned_rank_zero (v : Rules.Vendor) (rb : List Rules.ORule) (row : String) (cmdDirect : Bool) (scope : Option String)
+    (hp : ∀ r ∈ rb, PlainO v r) (hex : v.exit = "" ∨ v.exit ≠ row)
+    (hu : ∀ r ∈ rb, oMatches v r row = false) :
+    getOrder v rb row cmdDirect scope = some { order := .fin 0, direct := cmdDirect, children := [] } :=
+  getOrder_none v rb row cmdDirect scope hp hex hu
+
+/-- Hence (with `C08_sorted_by_key`): among direct commands the one matched by the earlier rule has the smaller key; among
+commands matched only through the negated form the order is mirrored; and a negated-form command of any rule but the
+first precedes every direct command. -/
+theorem C08_earlier_rule_first_negated_mirrored (i j : Nat) (h : i < j) :
+    (signed (.fin i) true).lt (signed (.fin j) true) = true ∧
+    (signed (.fin j) false).lt (signed (.fin i) false) = true ∧
+    (0 < i → ∀ k, (signed (.fin i) false).lt (signed (.fin k) true) = true) :=
+  ⟨signed_lt_direct i j h, signed_lt_negated i j h, fun hi k => signed_negated_before_direct i k hi⟩
 
 /-- A command with a smaller key (earlier rule; negated-only matches mirrored) comes first. -/
 theorem C08_sorted_by_key {α : Type} (lt : α → α → Bool) (h : StrictWeak lt) (l : List α) :
